@@ -132,6 +132,10 @@ structure World where
   /-- `/proc/<pid>/fd` itself may not be listed by the monitor (another user's process, or a
       zombie seen by a non-root monitor: the directory then belongs to root) -/
   dirDenied : Bool := false
+  /-- round 3 — the STAGE at which the process of `diesAt = some k` disappears: `false` = before
+      the link of descriptor `k` is read, `true` = right after that link was read (before anything
+      else under `/proc/<pid>` is opened for it) -/
+  diesAfterLink : Bool := false
 
 /-- the table as the scan meets it when the process dies at index `k` -/
 def killFrom : Nat → List Fd → List Fd
@@ -139,21 +143,23 @@ def killFrom : Nat → List Fd → List Fd
   | 0, d :: ds => { d with closesAt := some (.beforeReadlink .enoent) } :: killFrom 0 ds
   | k + 1, d :: ds => d :: killFrom k ds
 
+/-- descriptor whose link was still read when the process went away: its fdinfo is gone (unless the
+    descriptor had closed even before its link was read) -/
+def afterLink (d : Fd) : Fd :=
+  match d.closesAt with
+  | some (.beforeReadlink _) => d
+  | _ => { d with closesAt := some (.beforeFdinfo .enoent) }
+
+/-- the table as the scan meets it when the process dies right AFTER the link of descriptor `k` was read -/
+def killAfter : Nat → List Fd → List Fd
+  | _, [] => []
+  | 0, d :: ds => afterLink d :: killFrom 0 ds
+  | k + 1, d :: ds => d :: killAfter k ds
+
 def World.seen (w : World) : List Fd :=
   match w.diesAt with
-  | some k => killFrom k w.fds
+  | some k => if w.diesAfterLink then killAfter k w.fds else killFrom k w.fds
   | none => w.fds
-
-/-- the process vanished before the scan could finish (it was gone before the call, or some
-    listed descriptor had not been reached yet when it died) -/
-def World.vanished (w : World) : Bool :=
-  w.goneBefore || (match w.diesAt with | some k => decide (k < w.fds.length) | none => false)
-
-def renderWorld (w : World) : Proc :=
-  { fdDir := if w.goneBefore then .err (.gone .enoent)
-             else if w.dirDenied then .err .denied else .ok (w.seen.map renderFd)
-    alive := !w.vanished
-    zombie := w.zombie }
 
 /-! ### what the user is promised -/
 
@@ -166,23 +172,85 @@ def listed (fs : FS) (d : Fd) : Option POpenFile :=
     if fs.isFile path then some ⟨path, d.n, d.pos, mode d.flags, d.flags⟩ else none
   | _, _ => none
 
+/-! ### ground truth (round 3): what the descriptor IS, as opposed to what its link text says
+
+  `FdKind.regular path deleted` is a descriptor whose open file IS a regular file (the kernel knows
+  the inode); `listed` above asks the FILE SYSTEM about the link text instead (`fs.isFile path`:
+  what the monitor's `os.stat` of that name says now). The two differ when the name was unlinked
+  (the open file is still a regular file, nothing is at the name), re-created (another file is at the
+  name) or when a non-regular descriptor's text `x (deleted)` loses its marker and `x` is a regular
+  file. psutil reads nothing but the link text and the file system, so it cannot tell
+  (`C14_ground_truth_unobservable`). -/
+
+/-- the open file behind the descriptor is a regular file -/
+def Fd.isReg (d : Fd) : Bool :=
+  match d.kind with
+  | .regular _ _ => true
+  | _ => false
+
+/-- "exactly the descriptors pointing to regular files by absolute path", read with the kernel's
+    knowledge of the open file: every still-open `regular` descriptor, under the path it was
+    opened at, whatever is at that name now -/
+def groundListed (d : Fd) : Option POpenFile :=
+  match d.kind, d.closesAt with
+  | .regular path _, none => some ⟨path, d.n, d.pos, mode d.flags, d.flags⟩
+  | _, _ => none
+
 /-! ### permission: what the monitor is refused
 
   psutil's documented contract: a call that the operating system refuses for lack of
   permission raises `AccessDenied(pid)` — never a bare PermissionError, and never a silently
   shortened list (the statement says *exactly*). -/
 
+/-- a NON-absolute link text is handed to `os.stat` in one situation only: it ends in `" (deleted)"`
+    (the documented rule "the marker is dropped unless a file of the full name exists" looks the
+    full name up — relative to the monitor's cwd); that look-up can be refused -/
+def textStatDenied (fs : FS) (text : Bytes) : Bool :=
+  let t := text.takeWhile (· != 0)
+  endsWith delText t && fs.denied t
+
 /-- `os.stat` of the path the descriptor points to is refused (the monitor cannot tell whether
-    it is a regular file). Only absolute targets are ever stat'ed. -/
+    it is a regular file). Absolute targets are stat'ed; a non-absolute text only for the
+    `" (deleted)"` rule (`textStatDenied`) — round 3: no assumption that the file system never
+    refuses a non-absolute name. -/
 def statDenied (fs : FS) : FdKind → Bool
   | .regular path deleted => fs.denied path || (deleted && fs.denied (path ++ delText))
   | .device path => fs.denied path
+  | .anon name => textStatDenied fs (linkText (.anon name))
+  | .relative target => textStatDenied fs target
   | _ => false
 
 /-- fdinfo is consulted only for descriptors that were found to point to a regular file -/
 def reachesFdinfo (fs : FS) : FdKind → Bool
   | .regular path _ => fs.isFile path
   | _ => false
+
+/-- an access psutil makes for this descriptor fails with ENOENT / ESRCH (the descriptor, or the
+    whole process, is gone): the readlink, or — only for a descriptor that reaches that stage — the
+    open / a read of its fdinfo -/
+def failsGone (fs : FS) (d : Fd) : Bool :=
+  match d.closesAt with
+  | some (.beforeReadlink _) => true
+  | some _ => reachesFdinfo fs d.kind
+  | none => false
+
+/-- the process went away while the call was running (some listed descriptor's link had not been
+    read, or had just been read, when it died) -/
+def World.died (w : World) : Bool :=
+  match w.diesAt with | some k => decide (k < w.fds.length) | none => false
+
+/-- the process VANISHED as far as the call can tell: it was gone before the call, or it went away
+    during the scan and some access made afterwards failed because of it. (A process that goes
+    away after the last access psutil needed — its last descriptor being a socket whose link was
+    already read, say — is indistinguishable from one that goes away after the call returned.) -/
+def World.vanished (w : World) : Bool :=
+  w.goneBefore || (w.died && w.seen.any (failsGone w.fs))
+
+def renderWorld (w : World) : Proc :=
+  { fdDir := if w.goneBefore then .err (.gone .enoent)
+             else if w.dirDenied then .err .denied else .ok (w.seen.map renderFd)
+    alive := !(w.goneBefore || w.died)
+    zombie := w.zombie }
 
 /-- the monitor is refused while inspecting this descriptor (a descriptor that is already gone
     when its link is read answers ENOENT, not EACCES) -/
@@ -233,8 +301,8 @@ def WFKind (fs : FS) : FdKind → Prop
   | .device path =>
     path.head? = some 47 ∧ 0 ∉ path ∧ fs.isFile path = false ∧ fs.isFile (stripDel path) = false ∧
       (fs.denied (stripDel path) = true → fs.denied path = true)
-  | .relative target => target.head? ≠ some 47 ∧ fs.denied (target.takeWhile (· != 0)) = false
-  | k => fs.denied ((linkText k).takeWhile (· != 0)) = false
+  | .relative target => target.head? ≠ some 47
+  | _ => True
 
 def WFFd (fs : FS) (d : Fd) : Prop := WFKind fs d.kind
 
